@@ -42,7 +42,7 @@ def tie_run(lines, tag):
     """impl <-> model in both build profiles; returns (ncases, disagreements)"""
     ok, out = axv.build_axm()
     if not ok:
-        return 0, [("model-build", out[-800:])]
+        return 0, [("model-build", "-", (out[-800:], ""))]
     hs = harnesses()
     bad = []
     n = 0
